@@ -572,7 +572,7 @@ struct TemplateCore {
                         break;
                     }
 
-                    if (match != 0) {
+                    if (end_offset != 0) {
                         MathTag *tag   = (storage->Insert(TagBit{})).MakeMathTag();
                         tag->Offset    = (offset - TagPatterns::MathPrefixLength);
                         tag->EndOffset = end_offset;
